@@ -53,6 +53,7 @@ type caseT struct {
 	CallerMD  string `json:"caller_md"` // none | some
 	PeerOpt   bool   `json:"peer_option"`
 	HdrOpt    bool   `json:"header_option"`
+	Reject    string `json:"reject,omitempty"` // "" | unknown-method (404 from the server) | front-503 (a front handler sheds the request)
 }
 
 func credMD(kind string) (map[string]string, error) {
@@ -311,7 +312,19 @@ func opDesc(op string) (string, *grpc.StreamDesc) {
 	return "/t.S/U", nil
 }
 
-func run(e *env, c caseT) (o obsT) {
+func run(e *env, c caseT) obsT { return runCtx(e, c, nil) }
+
+// runCtx runs one call; base, when given, is the caller's context (sequences
+// share one), else it is made from c.CallerMD.
+func runCtx(e *env, c caseT, base context.Context) (o obsT) {
+	front := func(h http.Handler) http.Handler {
+		if c.Reject == "front-503" {
+			return http.HandlerFunc(func(w http.ResponseWriter, r *http.Request) {
+				http.Error(w, "shedding load", http.StatusServiceUnavailable)
+			})
+		}
+		return h
+	}
 	s := &seen{}
 	desc := service(s)
 	var cc grpc.ClientConnInterface
@@ -329,7 +342,7 @@ func run(e *env, c caseT) (o obsT) {
 			e.mu.Lock()
 			e.lastRemote = r.RemoteAddr
 			e.mu.Unlock()
-			srv.ServeHTTP(w, r)
+			front(srv).ServeHTTP(w, r)
 		}))}
 		u, err := url.Parse("http://" + hostFor(c.Host, "192.0.2.9", "8080") + "/")
 		if err != nil {
@@ -342,7 +355,7 @@ func run(e *env, c caseT) (o obsT) {
 		srv := httpgrpc.NewServer()
 		srv.RegisterService(desc, common.Impl{})
 		e.mu.Lock()
-		e.cur = srv
+		e.cur = front(srv)
 		e.lastRemote = ""
 		e.mu.Unlock()
 		ts := e.server(c.Transport)
@@ -394,11 +407,14 @@ func run(e *env, c caseT) (o obsT) {
 		defer cleanup()
 	}
 
-	ctx, cancel := context.WithCancel(context.Background())
-	defer cancel()
-	if md := callerMD(c.CallerMD); md != nil {
-		ctx = metadata.NewOutgoingContext(ctx, md)
+	if base == nil {
+		base = context.Background()
+		if md := callerMD(c.CallerMD); md != nil {
+			base = metadata.NewOutgoingContext(base, md)
+		}
 	}
+	ctx, cancel := context.WithCancel(base)
+	defer cancel()
 	var opts []grpc.CallOption
 	var cr *cred
 	if c.Creds != "none" {
@@ -421,6 +437,9 @@ func run(e *env, c caseT) (o obsT) {
 			}
 		}()
 		name, sd := opDesc(c.Op)
+		if c.Reject == "unknown-method" {
+			name = "/t.S/Nope"
+		}
 		if sd == nil {
 			var out wrapperspb.StringValue
 			o.err = cc.Invoke(ctx, name, wrapperspb.String("req"), &out, opts...)
@@ -528,6 +547,18 @@ func check(c caseT, o obsT) (fs []finding) {
 		return []finding{{"no-panic", "panic", o.Panic}}
 	}
 	insecure := isHTTP(c.Transport) || c.Transport == "grpc-go"
+	if c.Reject != "" {
+		f := finding{clause: "rejected-call-fails"}
+		if o.err == nil || o.HandlerRan > 0 {
+			f.fail, f.detail = "not-rejected", fmt.Sprintf("the server answered with an error status (%s), yet err=%v, handler ran %d time(s)", c.Reject, o.err, o.HandlerRan)
+		}
+		fs = append(fs, f)
+		if o.Requests > 0 {
+			// a response was received: the peer is known, whatever the status
+			fs = append(fs, peerOptFindings(c, o, "-on-rejected-call")...)
+		}
+		return fs
+	}
 	switch {
 	case c.Creds != "none" && c.Require && insecure:
 		// "the call fails before any request is issued"
@@ -604,9 +635,15 @@ func check(c caseT, o obsT) (fs []finding) {
 		fs = append(fs, f)
 	}
 
-	// peer call option
+	fs = append(fs, peerOptFindings(c, o, "")...)
+	return fs
+}
+
+// peerOptFindings: what the grpc.Peer target has to hold once the call is over.
+func peerOptFindings(c caseT, o obsT, suffix string) (fs []finding) {
+	var f finding
 	if c.PeerOpt {
-		f = finding{clause: "client-peer-address"}
+		f = finding{clause: "client-peer-address" + suffix}
 		switch {
 		case !o.CPeerSet || o.CPeerAddr == "":
 			f.fail, f.detail = "unset", "the grpc.Peer target has no address after the call completed"
@@ -624,7 +661,7 @@ func check(c caseT, o obsT) (fs []finding) {
 		}
 		fs = append(fs, f)
 		if isTLS(c.Transport) {
-			f = finding{clause: "client-peer-tls-info"}
+			f = finding{clause: "client-peer-tls-info" + suffix}
 			if o.CPeerAuth != "tls" {
 				f.fail, f.detail = "no-tls-authinfo", fmt.Sprintf("connection uses TLS but the grpc.Peer target's AuthInfo is %q (want credentials.TLSInfo of the completed handshake)", o.CPeerAuth)
 			}
@@ -671,6 +708,152 @@ func cases(tier string) []caseT {
 			}
 		}
 	}
+	// rejected calls: a response comes back, but not from a handler
+	for _, t := range trs {
+		if t == "inproc" {
+			continue
+		}
+		for _, host := range []string{"v4", "v6"} {
+			for _, op := range ops {
+				for _, rej := range []string{"unknown-method", "front-503"} {
+					for _, cr := range []string{"none", "both"} {
+						for _, ho := range []bool{false, true} {
+							out = append(out, caseT{Transport: t, Op: op, Host: host, Creds: cr, CallerMD: "none", PeerOpt: true, HdrOpt: ho, Reject: rej})
+						}
+					}
+				}
+			}
+		}
+	}
+	return out
+}
+
+// ---- sequences of calls on one caller context ------------------------------
+
+type seqT struct {
+	CallerCtx string  `json:"caller_ctx"` // new: metadata.NewOutgoingContext(md) | new+append: NewOutgoingContext then AppendToOutgoingContext
+	Steps     []caseT `json:"steps"`
+}
+
+var mdUniverse = []string{"a", "shared", "tok"}
+
+func seqContext(kind string) (context.Context, metadata.MD, metadata.MD) {
+	if kind == "new+append" {
+		md := metadata.MD{"shared": {"caller-v"}}
+		ctx := metadata.NewOutgoingContext(context.Background(), md)
+		return metadata.AppendToOutgoingContext(ctx, "a", "1", "a", "2"), md, md.Copy()
+	}
+	md := callerMD("some")
+	return metadata.NewOutgoingContext(context.Background(), md), md, md.Copy()
+}
+
+type seqFinding struct {
+	finding
+	step int
+}
+
+func sameMD(a, b metadata.MD) bool {
+	if len(a) != len(b) {
+		return false
+	}
+	for k, v := range a {
+		if strings.Join(v, "\x00") != strings.Join(b[k], "\x00") || len(v) != len(b[k]) {
+			return false
+		}
+	}
+	return true
+}
+
+func runSeq(e *env, q seqT) (obs []obsT, fs []seqFinding) {
+	ctx, md, orig := seqContext(q.CallerCtx)
+	mutated := false
+	for i, c := range q.Steps {
+		c.CallerMD = "some"
+		o := guardedCtx(e, c, ctx)
+		obs = append(obs, o)
+		for _, f := range check(c, o) {
+			fs = append(fs, seqFinding{f, i})
+		}
+		if o.HandlerRan == 1 && o.err == nil {
+			f := finding{clause: "metadata-exact-in-sequence"}
+			want := wantMD(c)
+			for _, k := range mdUniverse {
+				have, w := append([]string(nil), o.HandlerMD[k]...), append([]string(nil), want[k]...)
+				sort.Strings(have)
+				sort.Strings(w)
+				if strings.Join(have, "\x00") != strings.Join(w, "\x00") || len(have) != len(w) {
+					f.fail = "key=" + k
+					f.detail = fmt.Sprintf("call %d of the sequence (%s %s creds=%s): handler saw %q=%q, exactly %q expected (caller metadata + this call's credential metadata)", i+1, c.Transport, c.Op, c.Creds, k, o.HandlerMD[k], want[k])
+					break
+				}
+			}
+			fs = append(fs, seqFinding{f, i})
+		}
+		f := finding{clause: "caller-md-unchanged"}
+		if !mutated && !sameMD(md, orig) {
+			mutated = true
+			f.fail = "mutated"
+			f.detail = fmt.Sprintf("after call %d (%s %s creds=%s) the metadata.MD the caller put into its context is %v, was %v", i+1, c.Transport, c.Op, c.Creds, md, orig)
+		}
+		fs = append(fs, seqFinding{f, i})
+	}
+	return obs, fs
+}
+
+func seqFingerprint(q seqT, f seqFinding) string {
+	c := q.Steps[f.step]
+	earlier := "no-creds"
+	for _, p := range q.Steps[:f.step] {
+		if p.Creds != "none" {
+			earlier = "creds"
+		}
+	}
+	// the op and the require flag of the failing call are collapsed: what
+	// matters is its transport, whether it had credentials and what preceded
+	cr := "none"
+	if c.Creds != "none" {
+		cr = "yes"
+	}
+	return fmt.Sprintf("C13|seq|ctx=%s|%s|%s|call=%s/creds=%s|earlier-calls=%s", q.CallerCtx, f.clause, f.fail, c.Transport, cr, earlier)
+}
+
+func seqs(tier string, ref bool) []seqT {
+	trs := []string{"inproc", "http-rt", "https"}
+	if tier == "thorough" {
+		trs = append(trs, "http-loopback", "https-h2")
+	}
+	if ref {
+		trs = []string{"grpc-go"}
+	}
+	var steps []caseT
+	for _, t := range trs {
+		for _, op := range []string{"unary", "bidi"} {
+			steps = append(steps, caseT{Transport: t, Op: op, Creds: "none"}, caseT{Transport: t, Op: op, Creds: "both"}, caseT{Transport: t, Op: op, Creds: "both", Require: true})
+		}
+	}
+	var out []seqT
+	for _, k := range []string{"new", "new+append"} {
+		for _, a := range steps {
+			for _, b := range steps {
+				out = append(out, seqT{CallerCtx: k, Steps: []caseT{a, b}})
+			}
+		}
+	}
+	if tier == "thorough" {
+		var small []caseT
+		for _, st := range steps {
+			if st.Transport == "inproc" || st.Transport == "http-rt" || st.Transport == "https" || ref {
+				small = append(small, st)
+			}
+		}
+		for _, a := range small {
+			for _, b := range small {
+				for _, c := range small {
+					out = append(out, seqT{CallerCtx: "new", Steps: []caseT{a, b, c}})
+				}
+			}
+		}
+	}
 	return out
 }
 
@@ -681,12 +864,14 @@ func dims(c caseT) [][2]string {
 	if c.Creds != "none" {
 		creds = fmt.Sprintf("%s/require=%v", c.Creds, c.Require)
 	}
-	return [][2]string{{"host", c.Host}, {"creds", creds}, {"caller-md", c.CallerMD}, {"peer-opt", fmt.Sprint(c.PeerOpt)}, {"hdr-opt", fmt.Sprint(c.HdrOpt)}}
+	return [][2]string{{"reject", c.Reject}, {"host", c.Host}, {"creds", creds}, {"caller-md", c.CallerMD}, {"peer-opt", fmt.Sprint(c.PeerOpt)}, {"hdr-opt", fmt.Sprint(c.HdrOpt)}}
 }
 
-func guarded(e *env, c caseT) obsT {
+func guarded(e *env, c caseT) obsT { return guardedCtx(e, c, nil) }
+
+func guardedCtx(e *env, c caseT, base context.Context) obsT {
 	ch := make(chan obsT, 1)
-	go func() { ch <- run(e, c) }()
+	go func() { ch <- runCtx(e, c, base) }()
 	select {
 	case o := <-ch:
 		return o
@@ -703,6 +888,26 @@ func main() {
 	e := &env{}
 
 	if p := common.Arg("replay"); p != "" {
+		var q seqT
+		if err := common.LoadReplay(p, &q); err == nil && len(q.Steps) > 0 {
+			obs, fs := runSeq(e, q)
+			fmt.Printf("replay: sequence on one context (%s)\n", q.CallerCtx)
+			bad := false
+			for i, o := range obs {
+				fmt.Printf("  call %d %+v\n    observed: err=%q requests=%d handler ran=%d handler md=%v\n", i+1, q.Steps[i], o.Err, o.Requests, o.HandlerRan, o.HandlerMD)
+				for _, f := range fs {
+					if f.step == i && f.fail != "" {
+						fmt.Printf("    clause %s: FAILED %s: %s\n", f.clause, f.fail, f.detail)
+						bad = true
+					}
+				}
+			}
+			if bad {
+				fmt.Printf("VIOLATION property=C13 replay=%s\n", p)
+				os.Exit(1)
+			}
+			os.Exit(0)
+		}
 		var c caseT
 		if err := common.LoadReplay(p, &c); err != nil {
 			fmt.Fprintln(os.Stderr, "INCONCLUSIVE:", err)
@@ -731,7 +936,7 @@ func main() {
 	refRuns := 0
 	if rep.Tier == "thorough" {
 		for _, c := range cases("thorough") {
-			if c.Transport != "inproc" {
+			if c.Transport != "inproc" || c.Reject != "" {
 				continue
 			}
 			c.Transport, c.Host = "grpc-go", ""
@@ -740,6 +945,19 @@ func main() {
 			for _, f := range check(c, o) {
 				if f.fail != "" {
 					fmt.Fprintf(os.Stderr, "INCONCLUSIVE: the oracle rejects grpc-go's own behaviour on %+v: %s %s: %s\n", c, f.clause, f.fail, f.detail)
+					os.Exit(2)
+				}
+			}
+		}
+	}
+
+	if rep.Tier == "thorough" {
+		for _, q := range seqs("thorough", true) {
+			_, fs := runSeq(e, q)
+			refRuns++
+			for _, f := range fs {
+				if f.fail != "" {
+					fmt.Fprintf(os.Stderr, "INCONCLUSIVE: the oracle rejects grpc-go's own behaviour on sequence %+v: %s %s: %s\n", q, f.clause, f.fail, f.detail)
 					os.Exit(2)
 				}
 			}
@@ -808,7 +1026,7 @@ func main() {
 		gks = append(gks, k)
 	}
 	sort.Slice(gks, func(i, j int) bool { return groups[gks[i]].order < groups[gks[j]].order })
-	names := []string{"host", "creds", "caller-md", "peer-opt", "hdr-opt"}
+	names := []string{"reject", "host", "creds", "caller-md", "peer-opt", "hdr-opt"}
 	for _, gk := range gks {
 		g := groups[gk]
 		ak := gk[:strings.LastIndex(gk, "|")]
@@ -832,6 +1050,31 @@ func main() {
 		rep.Violation(fp, g.detail+" —"+scope+fmt.Sprintf(" first case %+v", g.first), g.first)
 	}
 
+	// sequences of calls sharing the caller's context
+	nSeq, nSeqCalls := 0, 0
+	for _, q := range seqs(rep.Tier, false) {
+		obs, fs := runSeq(e, q)
+		nSeq++
+		nSeqCalls += len(obs)
+		evals++
+		withCreds := false
+		for _, st := range q.Steps {
+			withCreds = withCreds || st.Creds != "none"
+		}
+		if withCreds {
+			distinct[fmt.Sprintf("%+v", q)] = true
+		}
+		for _, f := range fs {
+			clauseCount[f.clause]++
+			if f.fail != "" {
+				rep.Violation(seqFingerprint(q, f), f.detail, q)
+			}
+		}
+		if nSeq == 200 {
+			samples = append(samples, map[string]interface{}{"sequence": q, "observed": obs})
+		}
+	}
+
 	for _, s := range e.servers {
 		s.CloseClientConnections()
 		s.Close()
@@ -841,8 +1084,12 @@ func main() {
 		"distinct_nontrivial": len(distinct),
 		"rule": "full product {in-process, http via recorder RoundTripper, http loopback, https loopback (httptest TLS server + its client transport)" +
 			map[bool]string{true: ", https with HTTP/2", false: ""}[rep.Tier == "thorough"] + "} x base-URL host spelling {IPv4:port, IPv4 without port, [::1]:port, [0:0:0:0:0:0:0:1]:port, [::1] without port; HTTP transports, the dialer always reaches the real listener} x ops x credentials {absent, {require security or not} x metadata {nil, empty, one key, overlapping key, both, error}} x caller metadata {absent, {a:[1,2],shared:[caller-v]}} x peer option x header option. " +
+			"Plus rejected calls (unknown method -> 404, a front handler answering 503) x HTTP transports x {IPv4, IPv6} host x ops x {no creds, creds} x header option, with the peer option. " +
+			"Plus every sequence of 2 calls (thorough: also of 3) on ONE caller context, each call from {in-process, http, https} x {unary, bidi} x {no creds, creds, creds requiring security}, context made by NewOutgoingContext or NewOutgoingContext+AppendToOutgoingContext: per call the handler's metadata on keys {a,shared,tok} is exactly caller + that call's credential metadata, and the caller's MD object is unchanged. " +
 			"A case is non-trivial when the credential object was actually consulted (its RequireTransportSecurity/GetRequestMetadata call counters are > 0), or the grpc.Peer target was written, or the connection was TLS (so the TLS-info clause of the handler's peer applies); distinct by all case parameters.",
 		"clause_evaluations":          clauseCount,
+		"sequences":                   nSeq,
+		"sequence_calls":              nSeqCalls,
 		"grpc_go_reference_oracle_ok": refRuns,
 		"samples":                     samples,
 		"exhaustive":                  true,
